@@ -588,6 +588,9 @@ func work(ctx *runner.Ctx) {
 		}
 		if weight(k) >= 100000 && !ctx.Replay {
 			// heavy system: every worker explores its share of the subtrees
+			if ctx.Shard == 0 {
+				ctx.Sample(k)
+			}
 			runCaseSharded(ctx, k, ctx.Shard, ctx.NShards)
 			continue
 		}
